@@ -1,5 +1,5 @@
 (* Case evaluation for family R (C01, C02, C18, C24, C25). *)
-From BS Require Import Lib.Bytes Model.Json Model.Expr Model.MinMax Model.QueryFn.
+From BS Require Import Lib.Bytes Model.Json Model.Expr Model.MinMax Model.QueryFn Model.Matcher.
 From Coq Require Import List ZArith NArith Bool.
 Import ListNotations.
 
@@ -139,7 +139,9 @@ Definition mismatch (c : caseR) : bool :=
       negb (set_eqb (e_fields es) fs && set_eqb (e_tokens (tok_of tok) es) ts
             && set_eqb (e_fieldtokens (tok_of tok) es) fts)
   | CMatch row tok re qb qr obs refobs =>
-      let m := model_match row tok re qb qr in negb (eqb m obs) || negb (eqb m refobs)
+      let m := model_match row tok re qb qr in
+      negb (eqb m obs) || negb (eqb m refobs)
+      || negb (eqb (compiled_match (tok_of tok) (re_of re) qb qr (walk_row row)) obs)   (* the algorithmic model *)
   | CGuard qb qr obs => negb (obexpr_eqb (prune_query qb qr) obs)
   | CPrune F q obs => negb (eqb (prune_q (filters_of F) q) obs)
   | CQuery tok re files q obs reads =>
